@@ -601,6 +601,7 @@ def run(ctx):
     if ok_lib:
         ctx.prove(['theories/Props/C05.v'])
         ok_lib = regenerate(ctx)
+        ctx.guards_obligations()       # Qube._merged_mask regenerated from the current source: see coq/obl/Grd_C05.v
     # ---- sweep ----
     calls = sweep.call_list(Pm)
     sel = sweep.select(calls, ctx.rng, ctx.tier)
